@@ -23,6 +23,7 @@ INVARIANTS
   TypeOK
   Integrity
   NoSurplus
+  NeverTwice
   HeldAtMostTwo
   FragBound
   LastFlagRight
